@@ -199,7 +199,10 @@ TResult == /\ IsEvent("result") /\ result' = Ev.res
            /\ UNCHANGED <<h, claims, cstarts, plan, attempt, phase, offered, inflight, done, exited, workerErr, written, cache,
                           cancelled, mutated, storefail, regenerated, scen>>
 
-TNext == TReset \/ TPlan \/ TInvalid \/ TRegen \/ TValid \/ TFeed \/ TLeave \/ TClose \/ TJob \/ TCopied \/ TRehash
+\* the statistics record is judged by ExtractStats.tla
+TStats == IsEvent("stats") /\ UNCHANGED <<h, claims, cstarts, plan, attempt, phase, target, tlen, haveT, offered, inflight, done, exited,
+                                          workerErr, written, cache, cancelled, mutated, storefail, regenerated, result, bad, scen>>
+TNext == TStats \/ TReset \/ TPlan \/ TInvalid \/ TRegen \/ TValid \/ TFeed \/ TLeave \/ TClose \/ TJob \/ TCopied \/ TRehash
          \/ TChunk \/ TStore \/ TIdle \/ TExit \/ TSSAdd \/ TSSGet \/ TCancel \/ TMutate \/ TResult
 TSpec == TInit /\ [][TNext]_tvars
 
